@@ -28,6 +28,7 @@ type SetCase struct {
 	Hold     int          `json:"hold"`
 	Gate     string       `json:"gate,omitempty"` // task that is answered only once every catch event listens
 	NCatch   int          `json:"ncatch,omitempty"`
+	FirstWaitMs int       `json:"firstWaitMs,omitempty"` // the first WaitUntilComplete call carries a deadline of so many simulated ms (it may expire before the set is complete); the same client then waits again without one
 	Together int          `json:"together,omitempty"` // the answerer waits until this many requests are pending and answers them all at the same moment, each from its own goroutine
 	Nested   int          `json:"nested,omitempty"` // number of processes whose body lies inside an embedded sub-process
 	Tags     []string     `json:"tags,omitempty"`
@@ -195,6 +196,15 @@ func (c *SetCase) Main() {
 				L.AddG(i, "wait-panic", fmt.Sprint(r), "", 0)
 			}
 		}()
+		if i == 0 && c.FirstWaitMs > 0 {
+			// a poll with a deadline first: it may come back false, and must not spoil the waits that follow
+			tctx, tcancel := context.WithTimeout(ctx, time.Duration(c.FirstWaitMs)*time.Millisecond)
+			env.fault("wait-with-deadline")
+			L.AddG(i, "wait", "timed", "", 0)
+			ok := ps.WaitUntilComplete(tctx)
+			L.AddG(i, "complete", fmt.Sprint(ok), "timed", 0)
+			tcancel()
+		}
 		L.AddG(i, "wait", "", "", 0)
 		ok := ps.WaitUntilComplete(ctx)
 		L.AddG(i, "complete", fmt.Sprint(ok), "", 0)
@@ -453,6 +463,10 @@ func genC18(d *Draw) Case {
 	c.Desc = strings.Join(desc, "; ") + fmt.Sprintf("; waits=%d conc=%v", c.Waits, c.WaitConc)
 	c.Picks = drawPicks(d, 24)
 	if d.N(4) == 3 {
+		c.FirstWaitMs = 1 + d.N(3)
+		c.Desc += fmt.Sprintf("; first wait with a deadline of %d ms", c.FirstWaitMs)
+	}
+	if d.N(4) == 3 {
 		// the bodies of the processes (throw events, catch events that message flows aim at, activities) lie
 		// inside an embedded sub-process; start events that a message flow instantiates stay where they are
 		target := map[string]bool{}
@@ -530,6 +544,7 @@ func checkC18(cc Case, r *simrt.Result) *Outcome {
 	}
 	quiesced := false
 	completes, waits := 0, 0
+	sawCancel := false
 	ceaseSet := 0
 	catchLeaves := map[string]int{}
 	catchVisits := map[string]int{}
@@ -584,7 +599,12 @@ func checkC18(cc Case, r *simrt.Result) *Outcome {
 			}
 		case "wait":
 			waits++
+		case "cancel":
+			sawCancel = true
 		case "complete":
+			if ev.A == "false" && ev.B != "timed" && !sawCancel && !quiesced {
+				vl.add("C18/waiter-false", "step %d: ProcessSet.WaitUntilComplete returned false although its context was neither cancelled nor expired (an earlier call of another or the same client had a deadline that expired)", ev.Step)
+			}
 			if !quiesced {
 				completes++
 				if ev.A == "true" {
@@ -661,6 +681,15 @@ func checkC18(cc Case, r *simrt.Result) *Outcome {
 	}
 	probe(o, "process-finishes-at-once", trivial)
 	probe(o, "message-flow", len(c.Defs.MsgFlows) > 0)
+	probe(o, "first-wait-with-a-deadline", c.FirstWaitMs > 0)
+	probe(o, "first-wait-expired", func() bool {
+		for _, ev := range c.env.L.E {
+			if ev.Kind == "complete" && ev.B == "timed" && ev.A == "false" {
+				return true
+			}
+		}
+		return false
+	}())
 	probe(o, "throw-races-the-catch-event's-first-listening", c.Together > 0)
 	probe(o, "process-bodies-inside-sub-processes", c.Nested > 0)
 	probe(o, "message-flow-with-bodies-inside-sub-processes", c.Nested > 0 && len(c.Defs.MsgFlows) > 0)
